@@ -64,6 +64,12 @@ func enumMenu() []enumOp {
 				enumOp{r, a, a, graphops.Union, 0},
 				enumOp{r, a, r, graphops.Intersect, 0})
 		}
+		// a list as its own argument
+		m = append(m,
+			enumOp{r, r, r, graphops.Add, 0},
+			enumOp{r, r, o1, graphops.Union, 0},
+			enumOp{r, r, r, graphops.RelateList, 0},
+			enumOp{r, r, o2, graphops.Intersect, 0})
 		m = append(m,
 			enumOp{r, -1, r, graphops.RelateNode, 0},
 			enumOp{r, -1, r, graphops.Remove, 2},
@@ -192,7 +198,9 @@ func runC08Enum(g *gen.G, rep *Report, cfx *CasesFile, depth, sample int) {
 					input := map[string]any{"initial_pool": initial, "history": append([]any{}, history...)}
 					for i, l := range pool {
 						var c string
-						if i == dst {
+						if i == dst && e.arg == e.recv && e.kind == graphops.RelateList {
+							c = fmt.Sprintf("(SelfRel %s %s %s %d %s)", beforeCoq[e.recv], coqfmt.Str(op.At), coqfmt.Z(int64(op.T)), outcome, coqfmt.NodeList(l))
+						} else if i == dst {
 							c = fmt.Sprintf("(One (mk_case08 %s %s %d %s))", beforeCoq[e.recv], opCoq, outcome, coqfmt.NodeList(l))
 						} else {
 							c = fmt.Sprintf("(Frame %s %s)", beforeCoq[i], coqfmt.NodeList(l))
